@@ -275,7 +275,7 @@ def svc_oracle(module, data, ans, hist=None):
             for mod, sp, inside, cov in locs:
                 if not ((sp[0], sp[1]) <= (l, c) <= (sp[2], sp[3])):
                     bad.append(f"hover at {rest} reports the range {sp} that does not contain the position")
-        elif kind == "fold":
+        elif kind == "fold" and syn == 0:     # sibling/nesting clauses quantify over syntactically valid modules
             spans = sorted(sp for _, sp, _, _ in locs)
             for i in range(len(spans)):
                 for j in range(i + 1, len(spans)):
@@ -328,6 +328,18 @@ CLASSES = ["Foo", "Bar", "Option", "List"]
 TAGS = ["Some", "None", "A", "Bee"]
 
 
+def arity(r, lo=1):
+    """tuple-capable positions get the boundary arities too: 1 (with trailing comma), 16, and rarely 0 / 17"""
+    k = r.below(40)
+    if k == 0:
+        return 16
+    if k == 1:
+        return 17
+    if k == 2:
+        return 0 if lo == 0 else 1
+    return r.range(max(lo, 1), 3)
+
+
 def gen_type(r, d):
     k = r.below(8) if d > 0 else r.below(3)
     if k == 0:
@@ -337,10 +349,10 @@ def gen_type(r, d):
     if k == 2:
         return r.pick(["T", "Str", "int"])
     if k in (3, 4):
-        return r.pick(CLASSES) + "<" + ", ".join(gen_type(r, d - 1) for _ in range(r.range(1, 3))) + ">"
+        return r.pick(CLASSES) + "<" + ", ".join(gen_type(r, d - 1 if i < 3 else 0) for i in range(arity(r))) + ">"
     if k == 5:
         return "() -> " + gen_type(r, d - 1)
-    return "(" + ", ".join(gen_type(r, d - 1) for _ in range(r.range(1, 3))) + ") -> " + gen_type(r, d - 1)
+    return "(" + ", ".join(gen_type(r, d - 1 if i < 3 else 0) for i in range(arity(r))) + ") -> " + gen_type(r, d - 1)
 
 
 def gen_pattern(r, d, top=True):
@@ -352,7 +364,7 @@ def gen_pattern(r, d, top=True):
     if k == 2:
         return r.pick(TAGS) + r.pick(["", "(_)", "(" + r.pick(VARS) + ")"])
     if k in (3, 4):
-        return "(" + ", ".join(gen_pattern(r, d - 1, False) for _ in range(r.range(1, 3))) + r.pick(["", "", ","]) + ")"
+        return "(" + ", ".join(gen_pattern(r, d - 1 if i < 3 else 0, False) for i in range(arity(r))) + r.pick(["", "", ","]) + ")"
     if k == 5:
         fields = []
         for _ in range(r.range(1, 3)):
@@ -360,7 +372,7 @@ def gen_pattern(r, d, top=True):
             fields.append(f if r.chance(1, 2) else f + " as " + gen_pattern(r, d - 1, False))
         return "{" + ", ".join(fields) + "}"
     if k in (6, 7):
-        return r.pick(TAGS) + "(" + ", ".join(gen_pattern(r, d - 1, False) for _ in range(r.range(1, 3))) + ")"
+        return r.pick(TAGS) + "(" + ", ".join(gen_pattern(r, d - 1 if i < 3 else 0, False) for i in range(arity(r))) + ")"
     if not top:
         return r.pick(TAGS) + "(_)"
     return " | ".join(r.pick(TAGS) + "(" + gen_pattern(r, d - 1, False) + ")" for _ in range(r.range(2, 3)))
@@ -398,13 +410,16 @@ def gen_expr(r, d):
     if k == 3:
         return r.pick(CLASSES) + "." + r.pick(["init", "make", "of"]) + r.pick(["", "", "<int>", "<T, () -> int>"]), 1
     if k == 4:
-        return "(" + ", ".join(gen_expr(r, d - 1)[0] for _ in range(r.range(2, 3))) + r.pick(["", "", ","]) + ")", 0
+        n = arity(r)
+        if r.chance(1, 4):       # the parser's all-identifier cover path `(a, b, ...)`
+            return "(" + ", ".join(r.pick(VARS) for _ in range(n)) + r.pick(["", ","]) + ")", 0
+        return "(" + ", ".join(gen_expr(r, d - 1 if i < 3 else 0)[0] for i in range(n)) + r.pick(["", "", ","]) + ")", 0
     if k == 5:      # parenthesised expression: no node of its own
         return "(" + gen_expr(r, d - 1)[0] + ")", 0
     if k in (6, 7):  # field / method access chains, explicit type arguments
         return paren(gen_expr(r, d - 1), 1) + "." + r.pick(VARS) + r.pick(["", "", "", "<int>", "<Foo<bool>, int>"]), 1
     if k in (8, 9):
-        args = ", ".join(gen_expr(r, d - 1)[0] for _ in range(r.below(3)))
+        args = ", ".join(gen_expr(r, d - 1 if i < 3 else 0)[0] for i in range(r.below(3) if r.chance(19, 20) else 17))
         return paren(gen_expr(r, d - 1), 1) + "(" + args + r.pick(["", "", ","] if args else [""]) + ")", 1
     if k == 10:
         return r.pick(["!", "-"]) + paren(gen_expr(r, d - 1), 1), 2
@@ -423,6 +438,8 @@ def gen_expr(r, d):
         body = gen_expr(r, d - 1)[0]
         ps = {0: "()", 1: "(a: int, b: " + gen_type(r, 1) + ")", 2: "(a, b: " + gen_type(r, 1) + ")", 3: "(a, b)", 4: "(a)",
               5: "(a, b, c: int, d)"}[shape]
+        if r.chance(1, 20):
+            ps = "(" + ", ".join(f"p{i}" for i in range(r.pick([1, 16, 17]))) + r.pick(["", ","]) + ")"
         return ps + " -> " + body, 12
     return gen_block(r, d), 1
 
